@@ -329,7 +329,7 @@ func (s emptyElementPseudoClassSelector) Match(n *html.Node) bool {
 		case html.ElementNode:
 			return false
 		case html.TextNode:
-			if strings.TrimSpace(nodeText(c)) == "" {
+			if strings.Trim(c.Data, " \t\r\n\f") == "" {
 				continue
 			} else {
 				return false
